@@ -1241,6 +1241,7 @@ Proof.
   rewrite (gj_defects_own sc tn md FtOneof m Hlk Hown) in Hdef.
   apply app_eq_nil in Hdef. destruct Hdef as [Hloc Hdef]. apply app_eq_nil in Hdef. destruct Hdef as [_ Hkids].
   unfold local_defects in Hloc. rewrite Hown in Hloc.
+  apply app_eq_nil in Hloc. destruct Hloc as [Hloc _].
   intros o Ho f Hcfg Hmem Hmsg.
   pose proof (flat_map_nil _ _ Hloc o Ho) as Hlo. cbv beta in Hlo. rewrite Hcfg, Hmem in Hlo.
   unfold variant_types_plain in Htp. rewrite forallb_forall in Htp. specialize (Htp o Ho). rewrite Hcfg, Hmem in Htp. cbn [negb orb] in Htp.
